@@ -391,7 +391,7 @@ fn random_call(rng: &mut Rng, r: &Reg, p: &Policy) -> Value {
         0..=9 => json!({"a": "AddVerifier", "c": *rng.pick(&["root", "root", "root", "c1"]), "v": *rng.pick(&["v1", "v2", "c1"]),
                         "amt": *rng.pick(&[min - 1, 2 * min, 4 * min, 8 * min])}),
         10..=12 => json!({"a": "RemoveVerifier", "c": *rng.pick(&["root", "root", "v1"]), "v": *rng.pick(&["v1", "v2", "c1"])}),
-        13..=27 => json!({"a": "AddClient", "c": *rng.pick(&["v1", "v1", "v2", "c1"]), "cl": *rng.pick(&["c1", "c1", "c2", "v2"]),
+        13..=27 => json!({"a": "AddClient", "c": *rng.pick(&["v1", "v1", "v2", "c1"]), "cl": *rng.pick(&["c1", "c1", "c2", "v2", "c1", "c2", "m1"]),
                           "amt": *rng.pick(&[min, min, 2 * min, 3 * min])}),
         28..=30 => json!({"a": "RemoveDataCap", "c": "root", "cl": *rng.pick(&["c1", "c2"]), "amt": *rng.pick(&[min, 10 * min]),
                           "v1": "v1", "v2": *rng.pick(&["v2", "v2", "v1"]), "sig1OK": rng.chance(90), "sig2OK": rng.chance(85), "removed": 0}),
